@@ -197,6 +197,11 @@ def run_unit(unit, drv, res, seed, tier):
         for h in range(25):
             ctx = make_ctx(rng)
             progs = rng.sample(TEMPLATES, rng.randint(6, 14))
+            # fresh regex patterns in every history, ill-formed ones among them (process-wide caches)
+            for _ in range(6):
+                i = rng.randint(0, 400)
+                progs.append(rng.choice(["'abc%d'.matches('^abc%d$')" % (i, i), "s.matches('a{%d}')" % (i % 50), "s.matches('(')",
+                                         "xs.exists(e, e.matches('[a-z]{%d}'))" % (1 + i % 20), "s.matches('[z-a]')", "'q%d'.matches('q%d|r')" % (i, i)]))
             for _ in range(rng.randint(0, 6)):
                 p = random_program(rng)
                 if p:
